@@ -120,12 +120,14 @@ def encode(rng, fmt, rec, kfmt=None, custom=False):
     return line, named, exempt
 
 
-def gen_file(rng: random.Random, fmt: str, custom: bool = False):
+def gen_file(rng: random.Random, fmt: str, custom: bool = False, first_format: str | None = None):
     lines, text, exempt = [], [], []
     kfmt = "idx,R,R,R,P,P,P,P,P,Tmin,Tmax,rate"
     if fmt == "krome":
         kfmt = rng.choice([kfmt, kfmt, "idx,R,R,P,P,Tmin,Tmax,rate", "R,R,P,P,Tmin,Tmax,rate", "rate,idx,R,R,P,P", "Tmin,Tmax,R,P,P,rate"])
-        text.append("@format:" + (kfmt.lower() if rng.random() < 0.4 else kfmt))
+        if first_format:
+            kfmt = first_format
+        text.append("@format:" + (kfmt.lower() if (first_format or rng.random() < 0.4) else kfmt))
         lines.append({"cls": "format", "rec": DUMMY})
     for _ in range(rng.randint(1, 8)):
         roll = rng.random()
@@ -184,7 +186,9 @@ def main(ctx: Ctx) -> int:
     for fmt in ("kida", "umist", "leeds", "uclchem", "krome", "naunet"):
         for k in range(n):
             custom = fmt in ("kida", "naunet", "krome") and k % 5 == 4      # a network that declares its own marker tokens
-            text, lines, exempt = gen_file(rng, fmt, custom)
+            # the first KROME files use, in lower case, each column order whose first keyword is not `idx`
+            forced = {0: "R,R,P,P,Tmin,Tmax,rate", 1: "rate,idx,R,R,P,P", 2: "Tmin,Tmax,R,P,P,rate"}.get(k) if fmt == "krome" else None
+            text, lines, exempt = gen_file(rng, fmt, custom, forced)
             f = ctx.sub("in") / f"{fmt}_{k}.txt"
             f.write_text(text)
             obs = {"ok": True, "reactions": [], "err": ""}
